@@ -3,7 +3,7 @@
     about the exact-rational instance [Qops] of the generic policy code of
     C10/Model.v (the binary64 instance [Fops] of the same code is what the
     correspondence compares with /repo off the dyadic grid).  Times are ns. *)
-From HS Require Import Base.Prelude C10.Model C10.QFacts C10.TokenBucket C10.Leaky C10.Sliding C10.Fixed C10.Adaptive C10.Entity C10.Dist.
+From HS Require Import Base.Prelude C10.Model C10.QFacts C10.TokenBucket C10.Leaky C10.Sliding C10.Fixed C10.Adaptive C10.Entity C10.Dist C10.Reach.
 From Coq Require Import QArith Permutation.
 Local Open Scope Q_scope.
 
@@ -49,19 +49,19 @@ Print Assumptions c10_token_bucket_progress.
 (** Consecutive granted acquires are at least 1/rate seconds apart, in every run from every state. *)
 Theorem c10_leaky_spacing : forall rate ops s,
   spaced_from (lk_interval Qops rate) s (run_times (lk_step Qops (lk_interval Qops rate)) s ops).
-Proof. intros rate. exact (lk_spacing (lk_interval Qops rate)). Qed.
+Proof. exact (fun rate => lk_spacing (lk_interval Qops rate)). Qed.
 Print Assumptions c10_leaky_spacing.
 
 Theorem c10_leaky_tua_zero : forall rate s now,
   lk_tua Qops (lk_interval Qops rate) s now = 0%Z -> snd (lk_acquire Qops (lk_interval Qops rate) s now) = true.
-Proof. intros rate. exact (lk_tua_zero_acquires (lk_interval Qops rate)). Qed.
+Proof. exact (fun rate => lk_tua_zero_acquires (lk_interval Qops rate)). Qed.
 Print Assumptions c10_leaky_tua_zero.
 
 Theorem c10_leaky_tua_blocks : forall rate s now ops,
   (0 < lk_tua Qops (lk_interval Qops rate) s now)%Z ->
   Forall (fun o => (time_of o < now + lk_tua Qops (lk_interval Qops rate) s now)%Z) ops ->
   snd (run_count granted (lk_step Qops (lk_interval Qops rate)) s ops) = 0%Z.
-Proof. intros rate. exact (lk_tua_positive_blocks (lk_interval Qops rate)). Qed.
+Proof. exact (fun rate => lk_tua_positive_blocks (lk_interval Qops rate)). Qed.
 Print Assumptions c10_leaky_tua_blocks.
 
 Theorem c10_leaky_progress : forall rate s now,
@@ -70,7 +70,7 @@ Theorem c10_leaky_progress : forall rate s now,
   let w2 := lk_tua Qops iv s (now + w1) in
   let w3 := lk_tua Qops iv s (now + w1 + w2) in
   w3 = 0%Z /\ (0 <= w1)%Z /\ (0 <= w2)%Z.
-Proof. intros rate. exact (lk_tua_progress (lk_interval Qops rate)). Qed.
+Proof. exact (fun rate => lk_tua_progress (lk_interval Qops rate)). Qed.
 Print Assumptions c10_leaky_progress.
 
 (* ------------------------------------------------------------------ sliding window *)
@@ -239,5 +239,19 @@ Print Assumptions c10_null_forwards_all.
 Theorem c10_distributed_conservation : forall limit es,
   let w := fst (dist_run limit dworld_init es) in
   forall l, (d_recv (w_lims w l) = d_fwd (w_lims w l) + d_drop (w_lims w l) + inflight w l)%Z.
-Proof. intros limit es. exact (dist_conservation limit es dworld_init dinv_init). Qed.
+Proof. exact (fun limit es => dist_conservation limit es dworld_init dinv_init). Qed.
 Print Assumptions c10_distributed_conservation.
+
+(* ------------------------------------------------------------------ side conditions hold in reachable states *)
+(** The well-formedness side conditions of the time_until_available theorems are invariants of every
+    run from the initial state (token bucket / adaptive: [tb_wf] via [tb_wf_ready]; fixed window:
+    [fw_wf]; sliding window: the log never exceeds N). *)
+Theorem c10_side_conditions_reachable :
+  (forall (p : tbp Qops), 0 < tb_rate p -> 0 <= tb_cap p -> forall ops B s lo, tb_cap p <= B -> tb_wf B s lo -> nondecr lo ops ->
+     forall now, (last_time lo ops <= now)%Z -> tb_ready (fst (run_count granted (tb_step Qops p) s ops)) now) /\
+  (forall wn n, (1 <= wn)%Z -> (0 <= n)%Z -> forall ops s lo, fw_wf wn n s lo -> nondecr lo ops ->
+     fw_wf wn n (fst (run_count granted (fw_step Qops wn n) s ops)) (last_time lo ops)) /\
+  (forall wn n ops, (0 <= n)%Z -> forall log, (Z.of_nat (length log) <= n)%Z ->
+     (Z.of_nat (length (fst (run_count granted (sw_step Qops wn n) log ops))) <= n)%Z).
+Proof. exact side_conditions_reachable. Qed.
+Print Assumptions c10_side_conditions_reachable.
